@@ -421,6 +421,113 @@ static void run_growth(uint64_t idx, Ctx& c) {
     if (idx % 997 == 0) c.sample("{\"history\":" + jstr(growth_str(g)) + "}");
 }
 
+// ------------------------------------------------------------------------------------------ schema-validator reuse histories
+// The same idea for the state an XML Schema validating scanner keeps between and during parses: attribute bookkeeping of wide complex types,
+// identity-constraint value stores, the xsi:nil / xsi:type state, substitution groups, lax wildcards into a new namespace, ID tables, the element
+// stack, and parses abandoned in the middle of each of those.  Every sequence of <= depth parses on one parser (IGXMLScanner or SGXMLScanner),
+// with and without grammar caching, followed by a final parse of every document, must give what a fresh parser gives for that document.
+static std::vector<HDoc> SDOCS;
+static void init_schema_docs() {
+    std::string atts, all;
+    for (int i = 1; i <= 70; i++) {
+        atts += "<xs:attribute name='a" + std::to_string(i) + "' type='" + (i == 50 ? "xs:ID" : i == 30 ? "xs:int" : "xs:string") + "'" + (i == 20 ? " default='d20'" : i == 40 ? " use='required'" : "") + "/>";
+        all += " a" + std::to_string(i) + "='" + (i == 30 ? "30" : "v" + std::to_string(i)) + "'";
+    }
+    g_vfs->put("/v/s.xsd",
+        "<xs:schema xmlns:xs='http://www.w3.org/2001/XMLSchema'>"
+        "<xs:element name='r' type='R'>"
+          "<xs:unique name='U'><xs:selector xpath='u'/><xs:field xpath='@id'/></xs:unique>"
+          "<xs:key name='K'><xs:selector xpath='k'/><xs:field xpath='@id'/></xs:key>"
+          "<xs:keyref name='F' refer='K'><xs:selector xpath='f'/><xs:field xpath='@ref'/></xs:keyref>"
+        "</xs:element>"
+        "<xs:complexType name='R'><xs:choice minOccurs='0' maxOccurs='unbounded'>"
+          "<xs:element ref='r'/><xs:element name='e' type='E'/><xs:element name='u' type='I'/><xs:element name='k' type='I'/>"
+          "<xs:element name='f'><xs:complexType><xs:attribute name='ref' type='xs:int'/></xs:complexType></xs:element>"
+          "<xs:element name='n' type='xs:int' nillable='true'/><xs:element name='t' type='B'/><xs:element ref='h'/>"
+          "<xs:element name='w'><xs:complexType><xs:sequence><xs:any namespace='##other' processContents='lax' minOccurs='0' maxOccurs='unbounded'/></xs:sequence></xs:complexType></xs:element>"
+          "<xs:element name='d' type='xs:string' default='dflt'/><xs:element name='x' type='xs:ID'/><xs:element name='l' type='L'/>"
+        "</xs:choice><xs:attribute name='id' type='xs:ID'/></xs:complexType>"
+        "<xs:complexType name='E'>" + atts + "</xs:complexType>"
+        "<xs:complexType name='I'><xs:attribute name='id' type='xs:int'/></xs:complexType>"
+        "<xs:complexType name='B'><xs:attribute name='x' type='xs:string'/></xs:complexType>"
+        "<xs:complexType name='D'><xs:complexContent><xs:extension base='B'><xs:sequence><xs:element name='c' type='xs:int' minOccurs='0'/></xs:sequence><xs:attribute name='y' type='xs:string' default='yd'/></xs:extension></xs:complexContent></xs:complexType>"
+        "<xs:simpleType name='L'><xs:list itemType='xs:int'/></xs:simpleType>"
+        "<xs:element name='h' type='xs:string'/><xs:element name='hs' type='xs:token' substitutionGroup='h'/>"
+        "</xs:schema>");
+    g_vfs->put("/v/o.xsd", "<xs:schema xmlns:xs='http://www.w3.org/2001/XMLSchema' targetNamespace='urn:o'><xs:element name='z' type='xs:int'/></xs:schema>");
+    const std::string XSI = " xmlns:xsi='http://www.w3.org/2001/XMLSchema-instance'";
+    const std::string R0 = "<r" + XSI + " xsi:noNamespaceSchemaLocation='s.xsd'";
+    std::string deep, deepEnd; for (int i = 0; i < 40; i++) { deep += "<r>"; deepEnd += "</r>"; }
+    std::string ids; for (int i = 0; i < 70; i++) ids += "<x>i" + std::to_string(i) + "</x>";
+    std::string keys; for (int i = 0; i < 90; i++) keys += "<k id='" + std::to_string(i) + "'/>";
+    SDOCS = {
+        {"wide-all-70-attributes", R0 + "><r/><r/><e" + all + "/></r>"},
+        {"wide-valid", R0 + "><e a10='z' a40='y'/></r>"},
+        {"wide-missing-required", R0 + "><e a1='q'/></r>"},
+        {"wide-bad-int", R0 + "><e a40='t' a30='x' a64='u' a65='w' a70='x'/></r>"},
+        {"keys-valid", R0 + "><k id='1'/><k id='2'/><u id='1'/><f ref='2'/><f ref='01'/></r>"},
+        {"keys-duplicate", R0 + "><k id='1'/><k id='01'/><u id='3'/><u id='3'/></r>"},
+        {"keyref-dangling", R0 + "><k id='2'/><f ref='1'/></r>"},
+        {"keys-90-nested", R0 + "><r>" + keys + "<f ref='89'/></r><f ref='5'/></r>"},
+        {"nil-valid", R0 + "><n xsi:nil='true'/><n>5</n></r>"},
+        {"nil-with-content", R0 + "><n xsi:nil='true'>5</n><n/></r>"},
+        {"xsi-type-derived", R0 + "><t xsi:type='D' x='1'><c>1</c></t><t x='1'/></r>"},
+        {"xsi-type-base-rejects-derived-content", R0 + "><t y='2'><c>1</c></t></r>"},
+        {"substitution", R0 + "><hs> a  b </hs><h> a  b </h></r>"},
+        {"wildcard-lax-unknown", R0 + "><w><o:z xmlns:o='urn:q' q='1'>x</o:z></w></r>"},
+        {"wildcard-lax-known", R0 + " xsi:schemaLocation='urn:o o.xsd'><w><o:z xmlns:o='urn:o'>x</o:z></w></r>"},
+        {"default-and-list", R0 + "><d/><d>own</d><l>1 2  3</l><l>1 x</l></r>"},
+        {"ids-70-duplicate", R0 + " id='i3'>" + ids + "</r>"},
+        {"deep-40", R0 + ">" + deep + "<e a40='m'/>" + deepEnd + "</r>"},
+        {"undeclared-element", R0 + "><k id='1'/><bogus/><k id='1'/></r>"},
+        {"abandoned-in-nil", R0 + "><n xsi:nil='true'>"},
+        {"abandoned-in-key-scope", R0 + "><r><k id='1'/><k id='2'/><f ref='2'/><"},
+        {"abandoned-in-wide-start-tag", R0 + "><e" + all.substr(0, all.find(" a66=")) + " <"},
+        {"small", R0 + "/>"},
+    };
+}
+static int g_sdepth = 2;
+static bool g_srotate = false;             // the API is not a dimension but rotates with the history index
+static std::vector<int> g_scaches = {0, 1, 2};
+struct SCase { int api, cache, scanner, fin; std::vector<int> ops; };
+static SCase schema_case(uint64_t idx) {
+    SCase g; uint64_t nw = words_upto(SDOCS.size(), g_sdepth), idx0 = idx;
+    g.ops = word_at(idx % nw, SDOCS.size(), g_sdepth); idx /= nw;
+    g.fin = (int)(idx % SDOCS.size()); idx /= SDOCS.size();
+    g.cache = g_scaches[idx % g_scaches.size()]; idx /= g_scaches.size();
+    g.scanner = (int)(idx % 2); idx /= 2;
+    g.api = g_srotate ? (int)((idx0 + idx0 / nw) % 3) : (int)idx;
+    return g;
+}
+static const char* SCACHE[] = {"no caching", "cacheGrammarFromParse+useCachedGrammarInParse", "loadGrammar(s.xsd, cache)+useCachedGrammarInParse"};
+static std::string schema_str(const SCase& g) {
+    std::string s = std::string(BoxName[g.api]) + "/" + (g.scanner ? "SGXMLScanner" : "IGXMLScanner") + " [" + SCACHE[g.cache] + "]: ";
+    for (int o : g.ops) s += "parse(" + SDOCS[o].name + "); ";
+    return s + "parse(" + SDOCS[g.fin].name + ")";
+}
+static void run_schema(uint64_t idx, Ctx& c) {
+    SCase g = schema_case(idx);
+    g_vfs->clear(); put_files(); init_schema_docs();
+    Config cfg; cfg.ns = true; cfg.val = 1; cfg.schema = true; cfg.scanner = g.scanner ? SG : IG;
+    std::unique_ptr<Box> used(make_box(g.api)); used->cfg = cfg;
+    if (g.cache == 1) { used->cacheFromParse(true); used->useCached(true); }
+    if (g.cache == 2) { used->loadGrammar("/v/s.xsd", true, true); used->useCached(true); }
+    for (int o : g.ops) used->parse(SDOCS[o].bytes, 0);
+    ParseResult ru = used->parse(SDOCS[g.fin].bytes, 0);
+    std::unique_ptr<Box> fresh(make_box(g.api)); fresh->cfg = cfg;
+    ParseResult rf = fresh->parse(SDOCS[g.fin].bytes, 0);
+    c.count("parses", 2 + g.ops.size());
+    std::string x = cache_view(rf), y = cache_view(ru);
+    if (x != y) {
+        size_t i = 0; while (i < x.size() && i < y.size() && x[i] == y[i]) i++;
+        size_t ls = x.rfind('\n', i); ls = ls == std::string::npos ? 0 : ls + 1;
+        c.violation("history-dependent-result", "\"history\":" + jstr(schema_str(g)) + ",\"expected\":" + jstr(x.substr(ls, 200)) + ",\"observed\":" + jstr(y.substr(ls, 200)));
+    }
+    if (rf.errs || !rf.ok()) c.count("final_with_errors"); else c.count("final_clean");
+    c.count("schema_reuse_histories");
+    if (idx % 997 == 0) c.sample("{\"history\":" + jstr(schema_str(g)) + "}");
+}
+
 int main(int argc, char** argv) {
     Args a(argc, argv);
     std::string space = a.str("space", "hist");
@@ -441,6 +548,16 @@ int main(int argc, char** argv) {
         R.fn = run_growth;
         R.describe = [](uint64_t i) { return "{\"history\":" + jstr(growth_str(growth_case(i))) + "}"; };
         R.extra_json = "\"documents\":" + std::to_string(GDOCS.size()) + ",\"depth\":" + std::to_string(g_gdepth);
+    } else if (space == "schema") {
+        g_vfs->clear(); init_schema_docs();
+        g_sdepth = (int)a.num("depth", 2);
+        g_srotate = a.num("rotate", 0) != 0;
+        { std::string cs = a.str("caches", "012"); g_scaches.clear(); for (char ch : cs) g_scaches.push_back(ch - '0'); }
+        R.total = words_upto(SDOCS.size(), g_sdepth) * SDOCS.size() * g_scaches.size() * 2 * (g_srotate ? 1 : 3);
+        R.fn = run_schema;
+        R.describe = [](uint64_t i) { return "{\"history\":" + jstr(schema_str(schema_case(i))) + "}"; };
+        R.extra_json = "\"documents\":" + std::to_string(SDOCS.size()) + ",\"depth\":" + std::to_string(g_sdepth) + ",\"api_rotates\":" + (g_srotate ? "true" : "false") +
+                       ",\"cache_regimes\":" + std::to_string(g_scaches.size());
     } else if (space == "cache") {
         R.total = 5 * 4 * 4 * 3;
         R.fn = run_cache;
